@@ -446,7 +446,9 @@ def fam_wrappers(R):
                 return {'cls': '%s.ilength does not pass its arguments through' % name, 'inputs': {'s_tol': mval(m, tol), 'error': mval(m, err)},
                         'script': REPLAY_WRAP % name}
             ok = rec.get('curve') is o and rec.get('maxits') == mi and rec.get('min_depth') == md and r == 0.5
-            claim = z3.And(z3.BoolVal(bool(ok)), req(rec.get('s', 0), s), req(rec.get('s_tol', 0), tol), req(rec.get('error', 0), err)) if ok else z3.BoolVal(False)
+            def same(got_, want_):
+                return req(got_, want_) if isinstance(got_, (SR, int, float)) else z3.BoolVal(False)     # None: the argument was dropped
+            claim = z3.And(z3.BoolVal(bool(ok)), same(rec.get('s'), s), same(rec.get('s_tol'), tol), same(rec.get('error'), err)) if ok else z3.BoolVal(False)
             R.ob('wrapper.%s' % name, ctx, claim, cex=cex, robust=[tol.e == z3.RealVal('1/1000000000000000'), err.e == z3.RealVal('1/1000000000000')])
         R.sample({'wrappers': [n for n, _, _, _ in out]})
 
@@ -460,7 +462,8 @@ o = objs[name]
 rec = {}
 real = P.inv_arclength
 def spy(curve, s, s_tol=None, maxits=None, error=None, min_depth=None):
-    rec.update(s=s, s_tol=s_tol, maxits=maxits, error=error, min_depth=min_depth); return real(curve, s, s_tol=s_tol, maxits=maxits, error=error, min_depth=min_depth)
+    rec.update(s=s, s_tol=s_tol, maxits=maxits, error=error, min_depth=min_depth)
+    return real(curve, s, **{k: v for k, v in dict(s_tol=s_tol, maxits=maxits, error=error, min_depth=min_depth).items() if v is not None})
 P.inv_arclength = spy
 try:
     o.ilength(o.length() / 3, s_tol=1e-15, maxits=77, error=1e-12, min_depth=3)
